@@ -35,8 +35,8 @@ func init() {
 		sc.Assumptions = simAssumptions
 		registry[sc.Prop] = func(run *harness.Run) int { return sim.RunSimCheck(run, sc) }
 	}
-	reg(&sim.SimCheck{Prop: "C01", Workload: "c01", Profile: withOpts(advProfile(merge(noBare, map[string]int{"equivocate": 12, "support": 25, "forgedNV": 12, "twistedNV": 12}), 500, 2), func(p *sim.Profile) { p.CommErrors = true }),
-		QuickCases: 6000, ThoroughCases: 150000,
+	reg(&sim.SimCheck{Prop: "C01", Workload: "c01", Profile: withOpts(advProfile(merge(noBare, map[string]int{"equivocate": 12, "support": 25, "forgedNV": 12, "twistedNV": 12, "reblock": 25, "vcGames": 16}), 500, 2), func(p *sim.Profile) { p.CommErrors = true }),
+		QuickCases: 10000, ThoroughCases: 150000,
 		NonTrivial: func(r *sim.Result) bool { return r.Forky && r.Commits > 0 },
 		Rule:       "random adversarial case (committee, weights, leader order, Byzantine set <= f, schedule, attack strategies) from (VERIF_SEED, workload, index); non-trivial = at least two different proposals were on the wire at one height and some correct node committed; distinct = distinct schedule hash",
 		Floors:     map[string]int{"commits": 1000, "C01 agreeing commits": 500},
